@@ -177,11 +177,15 @@ func (s *Store[H]) deleteParallel(ctx context.Context, from, to uint64) (uint64,
 
 		for height := range jobCh {
 			last.height = height
-			last.err = s.deleteSingle(workerCtx, height, onDelete)
-			if errors.Is(last.err, errMissingHeader) {
+			err := s.deleteSingle(workerCtx, height, onDelete)
+			if errors.Is(err, errMissingHeader) {
+				// not a failure: must not be left behind as the worker's result
 				last.missing++
 				log.Debugw("attempt to delete header that's not found", "height", height)
-			} else if last.err != nil {
+				continue
+			}
+			last.err = err
+			if last.err != nil {
 				break
 			}
 		}
